@@ -202,12 +202,14 @@ async fn cross_user_session(a: Args, idx: usize, m: refimpl::ss::Method) -> Repo
     let cfg = Cfg::random(&mut rng, Proto::Ss(m), 3);
     let dir = work_dir(&a, &format!("c06x-{idx}"));
     let mut d = Deploy::new(cfg.clone(), Transport::Tcp, true, 2, &dir);
-    d.server_mode = Some("tcp_and_udp".into());
-    let cfgname = format!("{}|users=3", m.name());
+    // the datagram listener alone (mode udp) or next to the stream listener: the user table is the same
+    let udp_only = idx % 2 == 1;
+    d.server_mode = Some(if udp_only { "udp" } else { "tcp_and_udp" }.into());
+    let cfgname = format!("{}|users=3|mode={}", m.name(), if udp_only { "udp" } else { "tcp_and_udp" });
     let (dd, tag) = (d.clone(), format!("c06x-{idx}"));
     let started = tokio::task::spawn_blocking(move || {
         let mut server = start_node("server", &dd.server_json(), &dd.dir, &tag, dd.workers, &dd.log_level, None, None).map_err(|e| e.to_string())?;
-        wait_ready(&mut server, Some(dd.server_port), Some(dd.server_port), Duration::from_secs(15))?;
+        wait_ready(&mut server, if udp_only { None } else { Some(dd.server_port) }, Some(dd.server_port), Duration::from_secs(15))?;
         Ok::<Node, String>(server)
     })
     .await
@@ -329,6 +331,23 @@ async fn cross_user_session(a: Args, idx: usize, m: refimpl::ss::Method) -> Repo
     }
     if !server.alive() {
         rep.violation(format!("C06|nodes-udp|{}|server-exited", cfgname), "server exited".to_string(), json!({"log": server.log_tail(8)}));
+    }
+    // a stranger who holds the SERVER key only (no user key, so no identity header): never relayed, in either mode
+    {
+        let stranger = UdpSocket::bind("127.0.0.1:0").await.unwrap();
+        let keys = ss::Keys { psk: cfg.server_psk.clone(), ipsks: vec![] };
+        let now = std::time::SystemTime::now().duration_since(std::time::UNIX_EPOCH).unwrap().as_secs();
+        let sid = rng.next_u64();
+        for id in 1..=3u64 {
+            let p = ss::S22UdpPacket { session_id: sid, packet_id: id, type_byte: 0, timestamp: now, client_session_id: None, padding: vec![], addr: target.clone(), payload: vec![0, b'S', id as u8, 1, 2, 3] };
+            let _ = stranger.send_to(&ss::s22_udp_client_encode(m, &keys, &p, &rng.arr()), ("127.0.0.1", d.server_port)).await;
+        }
+        rep.evaluations += 3;
+        rep.mon("datagrams_sealed_under_the_server_key_alone", 3);
+        let mut b = vec![0u8; 4096];
+        if let Ok(Ok((n, _))) = tokio::time::timeout(Duration::from_millis(700), stranger.recv_from(&mut b)).await {
+            rep.violation(format!("C06|nodes|{}|datagram-under-the-server-key-alone-relayed-and-answered", cfgname), format!("{cfgname}: a peer that holds the server key but no registered user key sent a datagram without identity header; it was relayed and a {n}-byte answer came back"), json!({"seed": a.seed, "deploy": d.describe()}));
+        }
     }
     echo.abort();
     drop(server);
